@@ -9,14 +9,15 @@
    NAMES) are repaired: their refutation theorems are gone, their witnesses are now inside [dom] and agree
    (Sim.fixed_casenick / fixed_uhnames), and the NICK/hostmask theorem is the full statement.  F10c (int() coercion,
    a documented API of separateModes) stays: proved below are its refutation with a witness outside [dom], and -- for ALL bot states, no size bound -- the effect of the
-   handlers the property is about.  NOT proved: the trace-level theorem
-     forall acts, dom acts = true -> agree (final acts) = true
-   (it needs a global invariant linking the server's tables to the bot's five sets per channel through the
-   emitted bursts); [example_in_domain_agrees] in Sim.v is only an example of it, and the differential run
-   checks it on every generated history.  The theorems named ..._partial are the proved pieces of it. *)
+   handlers the property is about.  The trace-level theorem
+     forall acts, dom acts = true -> agree after every action
+   is proved at the END of this file for a sub-domain of actions (C10_simulation_trace_partial: induction over the
+   history with the lookup-level relation Inv of Inv.v); for the remaining actions [example_in_domain_agrees] in Sim.v
+   is only an example, and the differential run checks them on every generated history.  The theorems named
+   ..._partial are full statements about the handlers (all states) whose step case is not yet part of the trace proof. *)
 From Coq Require Import List NArith ZArith Bool.
 Import ListNotations.
-Require Import Base.Wire Base.PyStr C10.Model C10.Lemmas C10.Handlers C10.Sim.
+Require Import Base.Wire Base.PyStr C10.Model C10.Lemmas C10.Handlers C10.SrvLemmas C10.Feed C10.Inv C10.Sim C10.Agree C10.Step.
 
 (* ---- refutations of the simulation: concrete conformant histories outside [dom] after which the bot model
         disagrees with the server (replayed on the implementation: findings F10, F10b, F10c) ---- *)
@@ -163,3 +164,37 @@ Theorem C10_separateModes_spec :
   forall modes args out, parse_modes modes PLUS args out <-> separateModes (modes :: args) = out.
 Proof. exact separateModes_spec. Qed.
 Print Assumptions C10_separateModes_spec.
+
+(* ---- the simulation over traces (unbounded length), by induction with the lookup-level relation [Inv] ----
+   [Inv s b]  (Inv.v): the bot's nick is the server's; the bot records exactly the channels the server says it is on;
+   for each of them every membership / op / halfop / voice / ban question, the topic, every mode letter and the
+   creation time get the server's answer; every user who shares a channel with the bot has the server's hostmask on
+   record; plus well-formedness of the server tables.  [Inv] implies the executable [agree]. *)
+Theorem C10_relation_implies_agree : forall s b, Inv s b -> agree s b = true.
+Proof. exact Inv_agree. Qed.
+Print Assumptions C10_relation_implies_agree.
+
+(* Trace theorem, PARTIAL in the set of actions: for every history, of any length, whose steps are all
+   [proved_step]s -- CONNECT, TOPIC, single-target JOIN of another user into any channel, the bot's own single-target
+   JOIN into a channel nobody is on (full burst: JOIN, NAMES with multi-prefix and with or without userhost-in-names,
+   366, 324, 329, WHO reply) -- the reference server and the bot model, run in lock step from the connected start
+   state, agree after every action.  The step cases of PART, KICK, QUIT, NICK, MODE, CHGHOST, NAMES, WHO, reconnect,
+   multi-target lists and the bot joining a populated channel are NOT proved (see the report); those are covered by
+   the differential run only. *)
+Theorem C10_simulation_trace_partial :
+  forall nick0 prefix0 u h uh acts,
+  valid_nick nick0 = true -> valid_uh u = true -> valid_uh h = true ->
+  run_proved nick0 uh (srv0 nick0 u h) acts = true ->
+  all_agree nick0 prefix0 true uh (srv0 nick0 u h) (reset nick0 prefix0) acts = true.
+Proof.
+  intros nick0 prefix0 u h uh acts Hn Hu Hh Hr.
+  apply (trace_inv nick0 prefix0 uh acts _ _ (Inv_start nick0 prefix0 u h Hn Hu Hh) Hr).
+Qed.
+Print Assumptions C10_simulation_trace_partial.
+
+(* the same from ANY related pair of states (the step case is not tied to the start state) *)
+Theorem C10_simulation_from_related_partial :
+  forall nick0 prefix0 uh acts s b,
+  Inv s b -> run_proved nick0 uh s acts = true -> all_agree nick0 prefix0 true uh s b acts = true.
+Proof. intros. apply trace_inv; assumption. Qed.
+Print Assumptions C10_simulation_from_related_partial.
